@@ -397,17 +397,22 @@ class Walker:
     def resolve(self, name, scope):
         """-> None (local / builtin / unknown)  |  (module rel, qualified binding)  |  ('<extmod>', dotted)"""
         s = scope
+        imp = None
         while s is not None:
             if name in s.globals_decl:
                 break
             if name in s.locals:
-                return None
+                imp = getattr(s, "local_imports", {}).get(name)
+                if imp is None:
+                    return None
+                break
             s = s.parent
-        if name in self.mi.bindings:
-            return (self.mi.rel, name)
-        if name in self.mi.classes:
-            return ("<class>", name)
-        imp = self.mi.imports.get(name)
+        if imp is None:
+            if name in self.mi.bindings:
+                return (self.mi.rel, name)
+            if name in self.mi.classes:
+                return ("<class>", name)
+            imp = self.mi.imports.get(name)
         if imp is None:
             return None
         if imp[0] == "mod":
@@ -508,6 +513,12 @@ class Walker:
     def _function(self, fn, parent_scope, qual, cls):
         sc = Scope(fn, parent_scope, qual)
         sc.locals, sc.globals_decl = _bound_names(fn)
+        # names bound by function-level imports still denote the imported module / object
+        tmp = ModInfo(self.mi.rel, None)
+        for n in _own_nodes(fn):
+            if isinstance(n, (ast.Import, ast.ImportFrom)):
+                _record_import(n, tmp)
+        sc.local_imports = tmp.imports
         for g in sorted(sc.globals_decl):
             self.out["mutations"].append((self.mi.rel, qual, self.mi.rel, g, "global statement"))
         # set-typed locals: parameters annotated set[...], assignments from set-typed expressions (iterate to fixpoint)
